@@ -79,11 +79,13 @@ func setClientSubnet(req *bfe_basic.Request, dnsMsg *dns.Msg) {
 		cip = req.ClientAddr.IP
 	}
 
-	var family uint16 = 1
-	var sourceNetmask uint8 = 32
-	if cip.To16() != nil {
-		family = 2
-		sourceNetmask = 128
+	// To16() is non-nil for IPv4 addresses as well: tell the families apart by To4()
+	var family uint16 = 2
+	var sourceNetmask uint8 = 128
+	if ip4 := cip.To4(); ip4 != nil {
+		family = 1
+		sourceNetmask = 32
+		cip = ip4
 	}
 
 	subnet := &dns.EDNS0_SUBNET{
